@@ -669,3 +669,27 @@ Qed.
 Example ex_pre_nonvacuous :
   pre {| c_k := 2; c_init := []; c_tr := map (fun o => (o, {| b_ok := true; b_infos := []; b_log := [] |})) ex_ops |} = true.
 Proof. vm_compute. reflexivity. Qed.
+
+(* ---------------------------------------------------------------- MultiEpochHooks fan-out *)
+
+Lemma fanout_one_call (c : hook) (r : nat) : forall k a,
+  filter (fun x : nat * hook => Nat.eqb (fst x) r) (map (fun r' => (r', c)) (seq a k)) =
+  if (Nat.leb a r && Nat.ltb r (a + k))%bool then [(r, c)] else [].
+Proof.
+  induction k as [|k IH]; intro a.
+  - cbn [seq map filter]. destruct (Nat.leb_spec a r), (Nat.ltb_spec r (a + 0)); cbn [andb]; try reflexivity. lia.
+  - cbn [seq map filter fst]. rewrite IH. destruct (Nat.eqb_spec a r) as [->|Ne].
+    + destruct (Nat.leb_spec (S r) r); [lia|]. cbn [andb].
+      destruct (Nat.leb_spec r r); [|lia]. destruct (Nat.ltb_spec r (r + S k)); [|lia]. reflexivity.
+    + destruct (Nat.leb_spec (S a) r), (Nat.leb_spec a r), (Nat.ltb_spec r (S a + k)), (Nat.ltb_spec r (a + S k));
+        cbn [andb]; try reflexivity; lia.
+Qed.
+
+(** every one of the k registered hooks sees every call, once, in order *)
+Lemma fanout_each_hook_sees_every_call k l r :
+  (r < k)%nat -> map snd (filter (fun x : nat * hook => Nat.eqb (fst x) r) (fanout k l)) = l.
+Proof.
+  intro Hr. unfold fanout. induction l as [|c l IH]; [reflexivity|].
+  cbn [flat_map]. rewrite filter_app, map_app, IH, fanout_one_call.
+  destruct (Nat.leb_spec 0 r); [|lia]. destruct (Nat.ltb_spec r (0 + k)); [|lia]. reflexivity.
+Qed.
